@@ -15,6 +15,7 @@ mod hast;
 mod printer;
 mod props;
 mod rgram;
+mod rnamed;
 mod rtok;
 mod util;
 
